@@ -496,6 +496,29 @@ def class_pairs():
     P.append(("an array literal where a primitive is expected", "super(...) argument", al % ("{1.0f}", ""), al % ("1.0f", "")))
     for pos, bad_s, good_s in [("parenthesised gate name", "(x)(q);", "x(q);"), ("call of a call", "h(q)(q);", "h(q); h(q);"), ("parenthesised function name", "echo((f)(1.0f));", "echo(f(1.0f));")]:
         P.append(("a call through something that is not a name", pos, al % ("1.0f", bad_s), al % ("1.0f", good_s)))
+    # a non-void function returns along every path (docs/language/syntax.md, semantics.md)
+    ap = "function f(int a) -> int { %s }\nfunction main() -> void { echo(f(0)); }"
+    for pos, bad_s, good_s in [("if without else", "if (a > 0) { return 1; }", "if (a > 0) { return 1; } return 2;"),
+                               ("else branch without return", "if (a > 0) { return 1; } else { echo(a); }", "if (a > 0) { return 1; } else { return 2; }"),
+                               ("return only inside a loop", "while (a < 3) { return a; }", "while (a < 3) { a = a + 1; } return a;"),
+                               ("conditional statement with one returning branch", "a > 0 ? return 1; : echo(a);", "a > 0 ? return 1; : return 2;"),
+                               ("nested if, inner else missing", "if (a > 0) { if (a > 1) { return 1; } } else { return 2; }", "if (a > 0) { if (a > 1) { return 1; } else { return 3; } } else { return 2; }")]:
+        P.append(("a non-void function that can fall off its end", pos, ap % bad_s, ap % good_s))
+    # a function, gate, class or method name is not a value
+    nv = ("class D { public static int n = 1; public int g = 2; public constructor() -> D { } public function m() -> int { return 3; } }\n"
+          "function helper() -> void { }\nfunction main() -> void { D d = new D(); qubit q; %s }")
+    for pos, bad_s, good_s in [("gate name read before a later declaration", "int a = x; int x = 5;", "int x = 5; int a = x;"), ("function name as a string", "string s = helper;", "string s = \"helper\";"),
+                               ("class name as an object", "D o = D;", "D o = d;"), ("class name as an argument", "echo(D);", "echo(D.n);"),
+                               ("method name read as a field", "int v = d.m;", "int v = d.m();"), ("gate name as an operand", "int a = 1 + h;", "int a = 1 + d.g;")]:
+        P.append(("a function, gate, class or method name used as a value", pos, nv % bad_s, nv % good_s))
+    # array literals are checked wherever they are handed over
+    alp = ("class B { public int n = 0; public int[] v = {0}; public constructor() -> B { } }\nfunction takes(int[] xs) -> void { echo(xs); }\n"
+           "function main() -> void { int[] a = {1, 2, 3}; B b = new B(); %s }")
+    for pos, bad_s, good_s in [("assignment, string elements into int[]", "a = {\"x\", \"y\"};", "a = {7, 8};"), ("argument, string elements into int[]", "takes({\"p\"});", "takes({9});"),
+                               ("parenthesised initialiser", "int[] c = ({\"r\"});", "int[] c = ({1});"), ("literal into an int field", "b.n = {1, 2};", "b.v = {1, 2};"),
+                               ("literal into an element", "a[0] = {4, 5};", "a[0] = 4;"), ("float element into int[] by assignment", "a = {2.5f, 1};", "a = {2, 1};"),
+                               ("float element into an int[] field", "b.v = {1.5f};", "b.v = {1};")]:
+        P.append(("an array literal with elements of another type", pos, alp % bad_s, alp % good_s))
     # reset, and measure as an expression, act on one qubit
     rq = "class K { public qubit q; public constructor() -> K { } }\nfunction main() -> void { qubit[2] qs; int[] xs = {1}; K k = new K(); %s }"
     for pos, bad_s, good_s in [("reset of a register", "reset qs;", "reset qs[0];"), ("reset of an int array", "reset xs;", "reset qs[1];"), ("reset of an object", "reset k;", "reset k.q;"),
